@@ -3,10 +3,15 @@ from checks.common import *
 SPEC = {
     "translators": ["gen_codec"],
     "bins": ["c08"],
+    "hooks": ["lib/src/compiler/verif_c08.rs (+ guarded mod line at the end of lib/src/compiler/rules.rs)"],
     "model_targets": ["Codec/CodecCheck.vo"],
     "proof_targets": ["Codec/ReaderProofs.vo", "Codec/VarintProofs.vo", "Codec/UniverseProofs.vo", "Codec/HeaderProofs.vo", "Codec/RulesShapeProofs.vo"],
     "assumptions": [
-        "modelled and proved: every sequential byte decoder (resumable trees), bincode 2.0.1 config::standard() integer/bool/option/bytes/str/seq/map/tuple/enum framing, the MAGIC+version header and the order/operators of its checks (regenerated from rules.rs), the wire shape of struct Rules (field list regenerated; per-field shapes hand-written and validated by decoding real blobs exactly and re-encoding them byte for byte)",
+        "modelled and proved: every sequential byte decoder (resumable trees), bincode 2.0.1 config::standard() integer/bool/option/bytes/str/seq/map/tuple/enum framing, the MAGIC+version header and the order/operators of its checks (regenerated from rules.rs)",
+        "the wire shape of struct Rules and of every type reachable from it, and of the globals Struct (recursive: Struct/StructField/TypeValue/Array/Map/Func...), is DERIVED by the translator from the Rust struct/enum definitions and their serde attributes (Gen/RulesTyGen.v); the theorems are instantiated at the derived shape; it must equal the hand-reviewed shape (RulesShapeProofs.generated_shape_is_reviewed) and decode real blobs and their globals blobs exactly with byte-identical re-encoding (stream d)",
+        "hand-written serde impls (StringPool, BStringPool, AhoCorasick, serialize_wasm_mod/deserialize_wasm_mod) cannot be derived: their shapes are stated in translate/gen_codec.py and pinned by a digest of the impls' source (translate/codec_pins.json; a change is a TranslateError until reviewed and re-pinned with `python3 translate/gen_codec.py --repin`); shapes of other crates' types (bitvec BitVec, bstr BString, serde's Bound/Range*/NonZero, indexmap, smallvec) are stated in translate/rust_types.py and validated on real blobs",
+        "after deserialize(serialize R) and after the second round trip the hook digest Rules::verif_c08_digest (every table the scanner reads: pools, rules, patterns, sub-patterns, atoms, constraint maps, regexp sets, globals structure, AC automaton bytes, Teddy searcher, presence of the compiled WASM module; produced without serde) is identical to R's",
+        "single-bit flips of the header and of the framing integers (lengths, option tags, variant indices, located by a walker whose positions are compared with the model's [frames]) are run in a child process with a 24 GiB address-space and 3 GiB resident bound: the outcome must be an error or an accepted blob, never a panic, a signal or excessive memory; a sample is also decoded by the model and the error classes compared",
         "the payload decoder and the post-decode validation (profiling flag, WASM rebuild, sub-pattern bound) are parameters of the header theorems: they hold for every decoder and every validation; that the real decoder is a sequential decoder of the modelled shape is checked differentially (streams a and d), not proved from bincode's source",
         "not modelled, compared on the implementation only (stream b): what is rebuilt rather than stored (compiled WASM module, Teddy searcher), warnings (dropped by design), scanning behaviour of R vs deserialize(serialize R) vs the second round trip on generated rule sets and buffers",
         "re-serialization is byte-identical except for the order of FxHashMap entries (filesize_bounds, header_constraints, regex_sets), which depends on the table's capacity history; blobs are compared byte for byte and, when they differ, as decoded values with map entries sorted",
@@ -27,15 +32,15 @@ RULE = ("(a) random shapes of the universe (depth <= 3; u8..u64/usize, i16..i64,
         "offsets, lengths, at/in, of, for loops, filesize and header constraints, rule references, global/private rules, tags, metadata of every type, "
         "globals of every type (bool/int/float/string/bytes/struct with array), regexps and regexp sets in conditions, math/hash/string imports; every 4th set is a regex-set family: 3-10 rules each with its own or-chain of non-literal `matches` over one of 1-4 string globals (one RegexSet per rule, >= 3 per blob), scanned once more per regexp with that global set through Scanner::set_global to a string only that rule's regexp matches; 6 buffers "
         "built from the patterns' own instances; dumps of R, deserialize(serialize R) and the second round trip. (c) every prefix <= 4096 bytes plus 512 "
-        "sampled (quick) or every strict prefix (thorough; first 80 blobs) of each blob, all 12x255 single-byte header alterations of the first blob and 24 sampled of the "
-        "others, foreign/random blobs. (d) whole real blobs decoded and re-encoded by the model of struct Rules. Non-trivial/distinct: distinct rule-set "
+        "sampled, and EVERY strict prefix of the first blob (quick), or every strict prefix of the first 80 blobs (thorough), all 12x255 single-byte header alterations of the first blob and 24 sampled of the "
+        "others, foreign/random blobs. (c') in a child process: all 96 header bit flips and up to 600 (quick) / all (thorough, 4 blobs) single-bit flips of the framing integers of a blob holding every sub-pattern kind. (d) whole real blobs and the globals blobs inside them decoded and re-encoded by the model at the shape derived from the Rust definitions. Non-trivial/distinct: distinct rule-set "
         "sources and distinct (shape, value) pairs with more than 2 encoded bytes.")
 
 
 def classify(case):
     s = case.get("stream", "?")
     if s == "b-behaviour":
-        what = [k for k in ("deser_ok", "static_eq", "scans_eq", "reser_eq", "stream_api_eq") if case.get(k) is False]
+        what = [k for k in ("deser_ok", "static_eq", "scans_eq", "reser_eq", "stream_api_eq", "digest_eq") if case.get(k) is False]
         return "C08:round-trip:" + "+".join(what)
     if s == "c-prefix":
         return "C08:prefix-not-rejected"
@@ -43,6 +48,10 @@ def classify(case):
         return "C08:altered-header-not-rejected:pos%s" % case.get("pos")
     if s == "c-foreign":
         return "C08:foreign-blob-not-rejected"
+    if s == "c-flips":
+        return "C08:bit-flip-crash"
+    if s == "c-flip-model":
+        return "C08:bit-flip-model-disagreement"
     if s == "c-trailing":
         return "C08:panic-on-trailing-bytes"
     return "C08:" + s
@@ -50,9 +59,11 @@ def classify(case):
 
 def run_k(run, tier, seed, drv):
     if tier == "quick":
-        args = ["--seed", seed, "--n", 500, "--rulesets", 36, "--model-blobs", 6]
+        args = ["--seed", seed, "--n", 500, "--rulesets", 36, "--model-blobs", 6, "--all-prefixes", "--all-prefix-sets", 1,
+                "--flip-sets", 1, "--max-flips", 600, "--flip-model-blobs", 1, "--flip-model-sample", 6]
     else:
-        args = ["--seed", seed, "--n", 12000, "--rulesets", 140, "--model-blobs", 40, "--all-prefixes", "--all-prefix-sets", 80]
+        args = ["--seed", seed, "--n", 12000, "--rulesets", 140, "--model-blobs", 40, "--all-prefixes", "--all-prefix-sets", 80,
+                "--flip-sets", 4, "--flips-all-bits", "--max-flips", 20000, "--flip-model-blobs", 2, "--flip-model-sample", 9]
     info = standard_k(run, drv, "C08", "c08", args, "K_C08_codec", classify, timeout=2400)
     info["rule"] = RULE
     return info
@@ -66,11 +77,13 @@ MANIFEST = {
                    "a foreign version, any single-byte alteration of the header and every strict prefix of an accepted blob are rejected with an "
                    "error for every payload decoder and every post-decode validation, and deserialize(serialize v) = v with stable re-serialization. "
                    "The model is tied to the code by comparing the real bincode crate with the model encoder/decoder byte for byte, by decoding real "
-                   "blobs with the model of struct Rules, and by running Rules::deserialize on prefixes, altered headers and foreign blobs; behaviour "
+                   "blobs and their globals blobs with the model at the shape derived from the Rust type definitions, by comparing a serde-free digest of "
+                   "every table of R, deserialize(serialize R) and the second round trip, by bit flips of all framing integers in a bounded child process, and by running Rules::deserialize on prefixes, altered headers and foreign blobs; behaviour "
                    "after the round trip (rebuilt WASM/Teddy) is compared on generated rule sets and buffers."),
     "level_note": ("Proved for the model; the correspondence between the model and bincode/serde/yara-x is differential (exact bytes, outcome classes, "
-                   "scan dumps), not a proof about the Rust code. Trusted: Coq kernel, translator gen_codec.py, the harness, the hand-written shapes of "
-                   "the Rules fields (validated on real blobs each run). Crafted (non-truncated) blobs are outside the property."),
+                   "scan dumps), not a proof about the Rust code. Trusted: Coq kernel, the translator (gen_codec.py + rust_types.py: the wire shape of Rules, of every reachable type and of "
+                   "the globals Struct is derived from the Rust definitions and serde attributes; the shapes of the four hand-written serde impls are "
+                   "stated by hand and pinned by source digest), the harness, the hook digest Rules::verif_c08_digest. Crafted (non-truncated) blobs are outside the property."),
     "technique": "Coq proof over a model with source-generated definitions + differential correspondence (vm_compute)",
     "design_ref": "DESIGN.md section 4, C08",
 }
